@@ -402,7 +402,9 @@ impl<T: Read + Seek> Iterator for PointCloudReaderSimple<'_, T> {
                 convert_intensity(p);
             }
         }
-        if self.transform {
+        // Without a pose there is nothing to apply. Multiplying with an identity
+        // matrix is not the same, it turns infinite and NaN values into NaN for all axes.
+        if self.transform && self.pc.transform.is_some() {
             for p in self.buffer.iter_mut() {
                 transform_point(p, &self.rotation, &self.translation);
             }
